@@ -189,6 +189,11 @@ Interpolation::Interpolation(const std::vector<double>& arg_values, const std::v
 		std::cerr << "Error in libphysica::Interpolation::Interpolation(): Unequal length of argument and function lists: " << x_values.size() << " vs " << function_values.size() << std::endl;
 		std::exit(EXIT_FAILURE);
 	}
+	if(N < 3)
+	{
+		std::cerr << "Error in libphysica::Interpolation::Interpolation(): At least three points are required, not " << N << "." << std::endl;
+		std::exit(EXIT_FAILURE);
+	}
 	for(unsigned int i = 1; i < N; i++)
 	{
 		if(x_values[i] <= x_values[i - 1])
@@ -374,6 +379,15 @@ Interpolation_2D::Interpolation_2D()
 Interpolation_2D::Interpolation_2D(std::vector<double> x_val, std::vector<double> y_val, std::vector<std::vector<double>> func_values, double x_dim, double y_dim, double f_dim)
 : N_x(x_val.size()), N_y(y_val.size()), x_values(x_val), y_values(y_val), function_values(func_values), prefactor(1.0)
 {
+	// Check the shape of the table of function values
+	bool valid_shape = (function_values.size() == N_x);
+	for(unsigned int i = 0; valid_shape && i < N_x; i++)
+		valid_shape = (function_values[i].size() == N_y);
+	if(!valid_shape)
+	{
+		std::cerr << "Error in libphysica::Interpolation_2D::Interpolation_2D(): The table of function values does not have the shape " << N_x << "x" << N_y << "." << std::endl;
+		std::exit(EXIT_FAILURE);
+	}
 	// Transform units
 	if(x_dim > 0.0)
 		for(unsigned int i = 0; i < N_x; i++)
